@@ -627,6 +627,8 @@ def response_coefficients(
 
     """
     if variables is not None:
+        raw_variables = model.get_raw_variables(as_copy=False)
+        old_variables = {k: raw_variables[k].initial_value for k in variables}
         model.update_variables(variables)
 
     res = parallelise(
@@ -648,6 +650,9 @@ def response_coefficients(
         cache=cache,
         max_workers=max_workers,
     )
+    if variables is not None:
+        # Reset initial values
+        model.update_variables(old_variables)
 
     return ResponseCoefficientsByPars(
         variables=cast(pd.DataFrame, pd.concat({k: v.variables for k, v in res})),
